@@ -224,9 +224,16 @@ def no_verdict(trace):
     return "SKIPPED" in trace
 
 
-def make_stream(name, cases, pred, describe, nontrivial):
+def make_stream(name, cases, pred, describe, nontrivial, guarded=None):
+    """guarded: an additional predicate that counts only where the model's own trace satisfies it"""
+    def monitor(c, i, m):
+        if no_verdict(i):
+            return True
+        if pred(c, i) is not None:
+            return False
+        return guarded is None or guarded(c, i) is None or guarded(c, m) is not None
     return Stream(name, "srv", cases, compare=compare,
-                  monitor=lambda c, i, m: no_verdict(i) or pred(c, i) is None,
+                  monitor=monitor,
                   nontrivial=nontrivial, shrink=shrink_ops, describe=describe, timeout=400)
 
 
@@ -338,6 +345,32 @@ def c08_pred(case, trace):
     return None
 
 
+def c08_resume_pred(case, trace):
+    """"service resumes once the replacement is up": right after a plain Turn that leaves the waker queue empty, with the loop running, not paused,
+    no listener in back-off and some worker in the rotation flagged available, every connection connected (top level) before that Turn has been
+    dispatched, refused or lost with a dead worker — unless the rotation was empty at some point (connections are then dropped by design)
+    or the script injects a spurious WouldBlock. Evaluated on both traces; a clause the model itself does not satisfy gives no verdict."""
+    W, L, K, ops = parse_case(case)
+    if any(e.startswith("i") and e.endswith(":w") for o in ops for e in env_ops_of(o)):
+        return None
+    snaps = parse_trace(trace)
+    for k, sn in enumerate(snaps):
+        if sn.bad or sn.err or k >= len(ops):
+            return None
+        if not sn.handles:
+            return None
+        if ops[k] != "T" or sn.wqlen != 0 or sn.paused or sn.stopped or any(sn.lsts):
+            continue
+        flagged = [w for w in sn.workers if w["open"] and w["idx"] in sn.handles and w["idx"] < len(sn.bits) and sn.bits[w["idx"]] == "1"]
+        if not flagged:
+            continue
+        und = undispatched(ops[:k + 1], snaps[:k + 1])
+        if und:
+            return "op %d (T): waker queue drained, worker(s) %s live, in rotation and flagged available, but connection(s) %s wait in the backlog" % (
+                k, sorted(w["idx"] for w in flagged), sorted(und))
+    return None
+
+
 def has_fault(case, model_trace):
     return "F" in [e[0] for sn in parse_trace(model_trace) if not sn.bad for e in sn.events]
 
@@ -356,7 +389,7 @@ def bfs_scripts(configs, depth, maxn, flags):
     return out, info
 
 
-def bfs_stream(ctx, pred, flags, nontrivial, quick_depth=6, thorough_depth=9):
+def bfs_stream(ctx, pred, flags, nontrivial, quick_depth=6, thorough_depth=9, guarded=None):
     if ctx.tier == "quick":
         configs = [(1, 1, "T"), (2, 1, "T"), (2, 2, "U"), (1, 2, "TU")]
         depth, maxn = quick_depth, 4000
@@ -366,7 +399,7 @@ def bfs_stream(ctx, pred, flags, nontrivial, quick_depth=6, thorough_depth=9):
     cases, info = bfs_scripts(configs, depth, maxn, flags)
     st = make_stream("bfs", cases, pred,
                      "model-guided breadth-first enumeration, depth %d, flags '%s': one script per transition of the model's state graph; %s"
-                     % (depth, flags, "; ".join(info)), nontrivial)
+                     % (depth, flags, "; ".join(info)), nontrivial, guarded)
     st.exhaustive = all("%d scripts" % maxn not in i for i in info)
     return st
 
